@@ -13,7 +13,8 @@
 (***************************************************************************)
 EXTENDS GenProg, QuerySplit, IOUtils
 
-CONSTANTS PlanFamily, MaxOps, DbRows
+CONSTANTS PlanFamily, MaxOps, DbRows,
+          CoreFrom    \* sequences use the full menu for the first CoreFrom operators, then CoreMenu
 
 ---------------------------------------------------------------------------
 (* databases                                                               *)
@@ -62,10 +63,14 @@ SemMenu == <<
   Top(Num("2"), Term(cb, TRUE, TRUE, FALSE, TRUE)),
   Count,
   As("X"),
-  Render("bar", <<Prop("title", Str("t"))>>)
+  Render("bar", <<Prop("title", Str("t"))>>),
+  Top(Num("1"), Term(ca, TRUE, TRUE, FALSE, TRUE)),
+  Where(Bin("LE", ca, Num("1"))),
+  Sort(<<TermD(cb)>>)
 >>
-\* one representative per operator kind (for longer sequences)
-CoreMenu == <<1, 5, 7, 9, 13, 14, 16, 18, 20, 21, 22>>
+\* a smaller menu for the later positions of long sequences: every operator kind,
+\* filters that are not monotone in the sort keys, limits under both directions
+CoreMenu == <<1, 2, 24, 5, 7, 9, 13, 14, 16, 18, 23, 20, 21, 22>>
 NoRepeat == {7, 8, 21, 22}     \* extend introduces fresh names only; as / render names are used once
 
 \* joins: T(k, a) with B(k, b) [and C(k, c)]
@@ -109,7 +114,7 @@ AfterMenu == <<
 PlanChoices(c) ==
   CASE PlanFamily = "seq" ->
          IF Len(c) >= MaxOps THEN {}
-         ELSE (IF Len(c) < 2 THEN DOMAIN SemMenu ELSE SeqRange(CoreMenu)) \ {x \in NoRepeat : \E i \in DOMAIN c : c[i] = x}
+         ELSE (IF Len(c) < CoreFrom THEN DOMAIN SemMenu ELSE SeqRange(CoreMenu)) \ {x \in NoRepeat : \E i \in DOMAIN c : c[i] = x}
     [] PlanFamily = "join" ->
          \* <<left prefix (0 = none), join, after (0 = none)>> then optionally a second join
          (CASE Len(c) = 0 -> {0} \cup DOMAIN LeftMenu
